@@ -1648,6 +1648,7 @@ class ExtendedToStreamDecorator(CopyStreamResult, StreamSummary, TestControl):
         TestControl.__init__(self)
         self._started = False
         self.__now = None
+        self._tags = TagContext()
 
     def _get_failfast(self):
         return len(self.targets) == 2
@@ -1758,11 +1759,13 @@ class ExtendedToStreamDecorator(CopyStreamResult, StreamSummary, TestControl):
         self._started = True
 
     def _ensure_started(self):
-        """Start the run implicitly, keeping a time() supplied before it."""
+        """Start the run implicitly, keeping a time() and tags supplied before it."""
         if not self._started:
             now = self.__now
+            tags = self._tags
             self.startTestRun()
             self.__now = now
+            self._tags = tags
 
     @property
     def current_tags(self):
